@@ -38,8 +38,9 @@ type recMsg struct {
 }
 
 type recLoggers struct {
-	mu   sync.Mutex
-	msgs []recMsg
+	mu    sync.Mutex
+	msgs  []recMsg
+	delay time.Duration // a slow sink: every message takes this long to record
 }
 
 func (r *recLoggers) Close() error                 { return nil }
@@ -47,11 +48,17 @@ func (r *recLoggers) Check() error                 { return nil }
 func (r *recLoggers) SetLogSource(string) error    { return nil }
 func (r *recLoggers) SetLoggerSource(string) error { return nil }
 func (r *recLoggers) Log(output ...interface{}) {
+	if r.delay > 0 {
+		time.Sleep(r.delay)
+	}
 	r.mu.Lock()
 	r.msgs = append(r.msgs, recMsg{false, fmt.Sprint(output...)})
 	r.mu.Unlock()
 }
 func (r *recLoggers) LogError(e ...interface{}) {
+	if r.delay > 0 {
+		time.Sleep(r.delay)
+	}
 	r.mu.Lock()
 	r.msgs = append(r.msgs, recMsg{true, fmt.Sprint(e...)})
 	r.mu.Unlock()
@@ -499,6 +506,62 @@ func streamMain(args []string) {
 			}
 			rep.Fail(hx.Failure{Kind: "impl-violates-property", Key: key, Case: caseTxt,
 				Expected: fmt.Sprintf("stdout lines %q and stderr lines %q, each in order", wantO, wantE), Observed: fmt.Sprintf("%q (error: %v)", out, err)})
+		}
+	}
+	// output that is still on its way long after the child has exited: a slow logger draining a final burst, and a
+	// background descendant that writes to the inherited stream after the child's exit — every line, and success
+	{
+		var sb strings.Builder
+		var want []string
+		for k := 0; k < 2500; k++ {
+			l := fmt.Sprintf("burst-line-%04d", k)
+			want = append(want, l)
+			sb.WriteString(l + "\n")
+		}
+		rec := &recLoggers{delay: 400 * time.Microsecond}
+		f, ferr := os.CreateTemp("", "verif-stream-burst")
+		if ferr == nil {
+			_, _ = f.WriteString("o:" + hex.EncodeToString([]byte(sb.String())) + ":0")
+			_ = f.Close()
+			defer os.Remove(f.Name())
+			p, err := subprocess.New(context.Background(), rec, "START", "SUCCESS", "FAILURE", exe, "child", "@"+f.Name())
+			if err == nil {
+				t0 := time.Now()
+				runErr := p.Execute()
+				caseTxt := "child writing 2500 lines at once and exiting 0, logger taking 400µs per line"
+				rep.Eval(caseTxt, true)
+				rep.Hist("B:slow-logger")
+				var got []string
+				last := ""
+				for _, m := range rec.msgs {
+					if strings.HasPrefix(m.text, "burst-line-") {
+						got = append(got, m.text)
+					}
+					last = m.text
+				}
+				if runErr != nil || !eqStr(got, want) || last != "SUCCESS" {
+					rep.Fail(hx.Failure{Kind: "impl-violates-property", Key: "output-lost-when-the-logger-is-slow", Case: caseTxt,
+						Expected: "nil, 2500 lines, then the success message", Observed: fmt.Sprintf("error %v, %d lines, last message %.60q, after %v", runErr, len(got), last, time.Since(t0).Round(time.Millisecond))})
+				}
+			}
+		}
+		rec2 := &recLoggers{}
+		p2, err := subprocess.New(context.Background(), rec2, "START", "SUCCESS", "FAILURE", "sh", "-c", "echo first; (sleep 0.9; echo late) & exit 0")
+		if err == nil {
+			runErr := p2.Execute()
+			caseTxt := "sh -c 'echo first; (sleep 0.9; echo late) & exit 0'"
+			rep.Eval(caseTxt, true)
+			rep.Hist("B:late-background-writer")
+			var got []string
+			for _, m := range rec2.msgs {
+				if !m.err && m.text != "START" && m.text != "SUCCESS" {
+					got = append(got, m.text)
+				}
+			}
+			if runErr != nil || !eqStr(got, []string{"first", "late"}) {
+				rep.Fail(hx.Failure{Kind: "impl-violates-property", Key: "output-lost-after-the-exit-of-the-child", Case: caseTxt,
+					Expected: "nil and the lines first, late", Observed: fmt.Sprintf("error %v, lines %q", runErr, got)})
+			}
 		}
 	}
 	// cancellation => context kind
